@@ -276,47 +276,103 @@ point of its connection is a no-op). -/
 section Ownership
 open Hertz.PoolOwn
 
-/-- The acquire / release sites (with their guards) of `Server.Serve`, `putRequestContext`, `ReleaseBodyStream`,
-`ContinueReadBodyStream`, `hijackConnHandler`, `hijackConn.Close`, `Request.BodyBuffer/ResetBody` in the current
-source are the ones the state machine was written against: a new `Put`/`Release*` site (or a changed guard)
-breaks this theorem. -/
+set_option maxRecDepth 100000 in
+/-- The acquire / release sites (with their guards and early returns) of `Server.Serve`, `get/putRequestContext`,
+`Acquire/ReleaseBodyStream`, `ContinueReadBodyStream`, `acquire/releaseHijackConn`, `hijackConnHandler`,
+`hijackConn.Close` (with its `conn == nil` return, 4f1f5ed), `Request.BodyBuffer/ResetBody/CloseBodyStream` in the
+current source are the ones the state machine was written against: a new `Put`/`Release*` site, a changed guard or a
+removed early return breaks this theorem. -/
 theorem release_sites_match_gen : Hertz.Gen.PoolSites.sites = expectedSites := by decide
 
-/-- the whole discipline, along every run -/
-theorem ownership_invariant (es : List Ev) : Inv (run init es) := inv_run _ _ inv_init
+/-- The whole discipline, along every run on an engine with any `KeepHijackedConns` setting.  The alphabet contains
+`userClose`: the user's code calling `Close()` on its hijack conn any number of times.  The ONE excluded call is
+`staleClose` (see `stale_close_fails_at`): a holder that already released its conn closing again AFTER the object was
+handed to another connection. -/
+theorem ownership_invariant (keep : Bool) (es : List Ev) (hs : NoStale (initK keep) es) : Inv (run (initK keep) es) :=
+  inv_run _ _ (inv_initK keep) hs
+
+/-- without `KeepHijackedConns` (`Close` does nothing) there is nothing to exclude: every run, full strength -/
+theorem ownership_invariant_noKeep (es : List Ev) : Inv (run (initK false) es) :=
+  inv_run _ _ (inv_initK false) (noStale_of_not_keep _ es rfl)
 
 /-- A pool never contains one identity twice. -/
-theorem no_double_put (es : List Ev) (k : Kind) : ((run init es).pool k).Nodup :=
-  (ownership_invariant es).nodup k
+theorem no_double_put (keep : Bool) (es : List Ev) (hs : NoStale (initK keep) es) (k : Kind) :
+    ((run (initK keep) es).pool k).Nodup :=
+  (ownership_invariant keep es hs).nodup k
 
 /-- An object a live connection holds (its context; the request's body stream while the handler may run and on the
-early returns that skip the release; the hijack conn while the hijack handler runs) is not in its pool. -/
-theorem no_use_after_put (es : List Ev) (c : Nat) (cn : Conn) (k : Kind) (x : Nat)
-    (hc : (run init es).conns c = some cn) (hx : cn.holds k x) : x ∉ (run init es).pool k :=
-  (ownership_invariant es).notPooled c cn k x hc hx
+early returns that skip the release; the hijack conn from `acquireHijackConn` to its first effective release) is not
+in its pool. -/
+theorem no_use_after_put (keep : Bool) (es : List Ev) (hs : NoStale (initK keep) es) (c : Nat) (cn : Conn) (k : Kind)
+    (x : Nat) (hc : (run (initK keep) es).conns c = some cn) (hx : cn.holds k x) : x ∉ (run (initK keep) es).pool k :=
+  (ownership_invariant keep es hs).notPooled c cn k x hc hx
 
 /-- Two live connections never hold the same object. -/
-theorem distinct_owners (es : List Ev) (c d : Nat) (cn dn : Conn) (k : Kind) (x : Nat)
-    (hc : (run init es).conns c = some cn) (hd : (run init es).conns d = some dn)
+theorem distinct_owners (keep : Bool) (es : List Ev) (hs : NoStale (initK keep) es) (c d : Nat) (cn dn : Conn)
+    (k : Kind) (x : Nat) (hc : (run (initK keep) es).conns c = some cn) (hd : (run (initK keep) es).conns d = some dn)
     (hx : cn.holds k x) (hy : dn.holds k x) : c = d :=
-  (ownership_invariant es).distinct c d cn dn k x hc hd hx hy
+  (ownership_invariant keep es hs).distinct c d cn dn k x hc hd hx hy
 
 /-- No leak: an object that is accounted for (in its pool, or held by a live connection) is still accounted for after
 any further event — except at the places where `Serve` deliberately lets it go (`deliberate`): the context of an
 exiled request at the end of the connection; the body stream on the returns before the release site (response
-write / flush failure, unrecovered panic); a hijack conn the user keeps (`KeepHijackedConns`). -/
-theorem every_acquired_released_or_owned (es : List Ev) (e : Ev) (k : Kind) (x : Nat)
-    (ht : tracked (run init es) k x) :
-    tracked (step (run init es) e) k x ∨ deliberate (run init es) e k x :=
-  tracked_step _ e k x (ownership_invariant es) ht
+write / flush failure, unrecovered panic); a hijack conn the user still holds when `Serve` returns
+(`KeepHijackedConns`, not closed yet). -/
+theorem every_acquired_released_or_owned (keep : Bool) (es : List Ev) (hs : NoStale (initK keep) es) (e : Ev)
+    (k : Kind) (x : Nat) (ht : tracked (run (initK keep) es) k x) :
+    tracked (step (run (initK keep) es) e) k x ∨ deliberate (run (initK keep) es) e k x :=
+  tracked_step _ e k x (ownership_invariant keep es hs) ht
 
-/-- … and the listed places do lose the object (the exceptions are not vacuous): stream on a write failure,
-exiled context, kept hijack conn. -/
+/-- Regression for 4f1f5ed (was known finding `hijackconn-double-close`): in EVERY state, a second `Close()` right
+after a `Close()` changes nothing — no second `Put`, whatever `KeepHijackedConns` is. -/
+theorem hijack_close_idempotent (s : State) (c : Nat) :
+    step (step s (.userClose c)) (.userClose c) = step s (.userClose c) := close_idem s c
+
+/-- the former witness (`KeepHijackedConns`, the hijack handler closes three times): the object is in the pool once,
+and the run is inside the protected alphabet -/
+example :
+    let es := [Ev.accept 0 0, .read 0 true 0, .handle 0 false .returned, .respond 0 true false, .after 0 .hijack 0,
+      .userClose 0, .userClose 0, .userClose 0, .hijackEnd 0, .finish 0]
+    (run (initK true) es).pool .hjconn = [2] ∧ (run (initK true) es).pool .ctx = [0] ∧
+      (run (initK true) es).pool .stream = [1] := by decide
+
+example : NoStale (initK true) [Ev.accept 0 0, .read 0 true 0, .handle 0 false .returned, .respond 0 true false,
+    .after 0 .hijack 0, .userClose 0, .userClose 0, .userClose 0, .hijackEnd 0, .finish 0] := by
+  simp only [NoStale, and_true]
+  refine ⟨?_, ?_, ?_, ?_, ?_, ?_, ?_, ?_, ?_, ?_⟩ <;> first
+    | (intro h; exact h)
+    | (rintro ⟨cn, x, hc, hh, hl, hset, _, _⟩
+       simp [step, initK, State.setConn, State.setPool, State.put, State.setHj, take] at hc hset
+       all_goals (try subst hc)
+       all_goals (try simp_all))
+
+/-- What the repaired `Close` still does NOT protect (the full-strength statements are false with this call in the
+alphabet): connection 0 closes its kept hijack conn (object 0 goes back to the pool), connection 1 is hijacked and is
+handed object 0, then the holder of connection 0 calls `Close()` again — `Conn` is set again, the guard does not
+fire: object 0 is put while connection 1 holds it (and connection 1's network connection is closed under it).
+Only the holder can avoid this (do not touch a hijack conn after closing it); a generation counter in `hijackConn`
+would be needed to detect it. -/
+theorem stale_close_fails_at :
+    let es := [Ev.accept 0 0, .read 0 false 0, .handle 0 false .returned, .respond 0 true false, .after 0 .hijack 0,
+      .userClose 0,
+      .accept 1 0, .read 1 false 0, .handle 1 false .returned, .respond 1 true false, .after 1 .hijack 0,
+      .userClose 0]
+    ¬ NoStale (initK true) es ∧
+    ((run (initK true) es).conns 1).map (fun cn => (cn.hj, cn.hjLive)) = some (some 1, true) ∧
+    (run (initK true) es).pool .hjconn = [1] := by
+  refine ⟨?_, by decide, by decide⟩
+  simp only [NoStale, and_true, not_and]
+  intro _ _ _ _ _ _ _ _ _ _ _ h
+  apply h
+  exact ⟨{ phase := .hijacking, ctx := 0, hj := some 1, hjLive := false }, 1, by decide, rfl, rfl, by decide, rfl,
+    Or.inl rfl⟩
+
+/-- … and the listed places do lose the object (the exceptions are not vacuous): stream on a write failure. -/
 example :
     let es := [Ev.accept 0 0, .read 0 true 0, .handle 0 false .returned, .respond 0 false false]
     tracked (run init es) .stream 1 ∧ ¬ tracked (step (run init es) (.finish 0)) .stream 1 ∧
       deliberate (run init es) (.finish 0) .stream 1 := by
-  refine ⟨Or.inr ⟨0, _, rfl, by decide⟩, ?_, ⟨_, rfl, by decide, Or.inr ⟨rfl, Or.inl rfl⟩⟩⟩
+  refine ⟨Or.inr ⟨0, _, rfl, by decide⟩, ?_, ⟨_, rfl, by decide, Or.inr (Or.inl ⟨rfl, Or.inl rfl⟩)⟩⟩
   rintro (h | ⟨c, cn, hc, _⟩)
   · revert h; decide
   · by_cases e : c = 0
@@ -349,14 +405,14 @@ object a second time — the discipline is a property of the release SITES, not 
 theorem second_release_breaks_nodup (s : State) (k : Kind) (x : Nat) : ¬ (((s.put k x).put k x).pool k).Nodup := by
   simp [State.put, State.setPool]
 
-/-- scripts (what the harness drives) are runs: every scripted schedule of connections keeps the discipline -/
-theorem scripted_connections_keep_discipline (scripts : List (Nat × Bool × Bool × List Req)) :
-    Inv (run init (scripts.flatMap (fun p => Ev.accept p.1 0 :: connEvents p.1 p.2.1 p.2.2.1 p.2.2.2))) :=
-  ownership_invariant _
+/-- scripts without `KeepHijackedConns` are runs: every scripted schedule of connections keeps the discipline -/
+theorem scripted_connections_keep_discipline (scripts : List (Nat × Bool × List Req)) :
+    Inv (run (initK false) (scripts.flatMap (fun p => Ev.accept p.1 0 :: connEvents p.1 p.2.1 p.2.2))) :=
+  ownership_invariant_noKeep _
 
-example : (run init (Ev.accept 0 0 :: connEvents 0 false false
+example : (run init (Ev.accept 0 0 :: connEvents 0 false
       [{ readable := true, streamed := true }, { readable := true, streamed := true, close := true }])).pool .stream = [1]
-    ∧ (run init (Ev.accept 0 0 :: connEvents 0 false false
+    ∧ (run init (Ev.accept 0 0 :: connEvents 0 false
       [{ readable := true, streamed := true }, { readable := true, streamed := true, close := true }])).pool .ctx = [0] := by
   decide
 
@@ -380,8 +436,9 @@ TODO-OPEN (not provable in this model, covered by the differential runs only):
   `responseBodyPool`: put back only when their capacity exceeds `maxKeepBodySize`), `eventStackPool` (tracing), the
   multipart form and the `traceInfo` object are not in the state machine (their sites ARE in the generated site list, so
   a new release site still breaks `release_sites_match_gen`).  `NoHijackConnPool` and `disabaleRequestContextPool`
-  (no pooling at all) are not modelled.  The user closing a kept hijack conn twice (`hijackConn.Close` with
-  `KeepHijackedConns`) releases it twice: outside `Serve`, recorded as an observation in INTEGRATION.md.
+  (no pooling at all) are not modelled.  A kept hijack conn closed by its holder AFTER `Serve` returned is not an event
+  (the connection record is gone at `finish`: the object counts as deliberately let go).  `stale_close_fails_at` is
+  the residue of 4f1f5ed: the ownership theorems carry the hypothesis `NoStale`.
 * The guard CORRELATION of `Serve` (which ending follows which handler flags) is over-approximated: `Ev.after` picks
   the branch freely; the script-level function `connEvents` fixes the order of the guards and is compared with the real
   server on every `own` case.
